@@ -10,6 +10,8 @@ a set-up (what the implementation serves is then not what the model would) -/
 structure St where
   chain4 : List Sys.Elem4 := []
   chain6 : List Sys.Elem6 := []
+  /-- state of the `range` plugin when it is in the chain (as the placeholder `.lease none`) -/
+  range  : Option RState := none
   known  : Bool := true
 deriving Inhabited
 
@@ -62,7 +64,7 @@ def diff4 (m o : Sys.Out4) : List String :=
   | .panicNoIf, .send _ _ _ none true => []      -- the capture hook returns before the dereference
   | a, b => if a == b then [] else ["sent"]
 
-def stepDg4 (st : St) (bound oob : String) (res : String) : List String :=
+def stepDg4 (st : St) (chain : List Sys.Elem4) (bound oob : String) (res : String) : List String :=
   match (res.splitOn " ; ").map words with
   | [parsed, outW] =>
     match bound.toNat? with
@@ -76,7 +78,7 @@ def stepDg4 (st : St) (bound oob : String) (res : String) : List String :=
     match input with
     | none => ["DIVERGE drift unparsed-view"]
     | some input =>
-      let m := Sys.serve4 bound oob st.chain4 input
+      let m := Sys.serve4 bound oob chain input
       let brs := (match input with
           | none => ["br:sys4.unparsable"]
           | some r => if r.op != 1 then ["br:sys4.not-bootrequest"] else
@@ -87,7 +89,7 @@ def stepDg4 (st : St) (bound oob : String) (res : String) : List String :=
           | .send r _ _ i l2 => [if l2 then "br:sys4.l2" else "br:sys4.routed", if i.isSome then "br:sys4.pinned" else "br:sys4.unpinned"] ++
               (if r.yiaddr != [0,0,0,0] then ["br:sys4.address-assigned"] else []) ++
               (if r.opts.length > 3 then ["br:sys4.options-added"] else [])) ++
-        [s!"br:sys4.chain-len-{min st.chain4.length 4}"]
+        [s!"br:sys4.chain-len-{min chain.length 4}"]
       match outW with
       | "PANIC" :: _ | "HANG" :: _ | "CRASH" :: _ | ["SKIP", _] =>
         if outW.head? == some "SKIP" then ["br:sys.skip"] else
@@ -107,13 +109,13 @@ def stepDg4 (st : St) (bound oob : String) (res : String) : List String :=
         if !st.known then brs ++ f11 ++ f15 ++ frt ++ ["br:sys.chain-unknown"] else
         let d := diff4 m out
         -- SYS_C14_drop4 on the observation: `server_id` first in the chain and the request names another server
-        let f14 := match st.chain4, input with
+        let f14 := match chain, input with
           | .plug (.serverid c) :: _, some req =>
             if C14.namesOther4 c (Sys.viewReq4 req) && out != .drop then
               [s!"FAIL C14 whole chain (server_id first): a request naming another server was answered: {Plug.short res}"] else []
           | _, _ => []
         -- SYS_file_address4 on the observation: only plugins that never end the chain before `file`, client listed
-        let f10 := match st.chain4.span Sys.neverStops4, input with
+        let f10 := match chain.span Sys.neverStops4, input with
           | (_, .file t :: _), some req =>
             match t.get req.chaddr, Sys.stub4 req, out with
             | some (.v4 a), some _, .send r _ _ _ _ => if r.yiaddr == Sys.be4 a then [] else [s!"FAIL C10 whole chain: listed client answered with {hexB r.yiaddr}, the lease file says {u32Hex a}"]
@@ -244,7 +246,37 @@ def step (st : St) (op res : String) : St × List String :=
         | some _, false => (st, ["DIVERGE dom[sent] model=ok", "FAIL C10 a well-formed lease file was rejected at set-up"])
         | none, true => ({ st with known := false }, ["DIVERGE dom[sent] model=err", "FAIL C10 a malformed lease file was accepted at set-up"])
     | _ => (st, ["DIVERGE drift unparsed-result"])
-  | ["sdg4", bound, oob, _] => (st, stepDg4 st bound oob res)
+  | ["srange", s, e, lease] =>
+    if res == "SKIP after-hang" then (st, ["br:sys.skip"]) else
+    match Dispatch.ip4 s, Dispatch.ip4 e, lease.toInt? with
+    | some s, some e, some l =>
+      match RState.setup s e l [] some id, res == "ok" with
+      | .ok m, true => ({ st with chain4 := st.chain4 ++ [.lease none], range := some m }, ["br:sys.range-ok"])
+      | .error _, false => (st, ["br:sys.range-rejected"])
+      | .ok _, false => (st, ["DIVERGE dom[sent] model=ok"])
+      | .error _, true => ({ st with known := false }, ["DIVERGE dom[sent] model=err"])
+    | _, _, _ => (st, ["DIVERGE drift unparsed-op"])
+  | ["sdg4", bound, oob, _] =>
+    -- what `range` answers this client in its present state (first-fit allocator, as the code's)
+    let reqOf : Option Sys.Req4 := match (res.splitOn " ; ").map words with
+      | ("P" :: fields) :: _ => parseReq4 fields
+      | _ => none
+    match st.range, reqOf with
+    | some rs, some req =>
+      match rs.handle req.chaddr 0 rs.alloc.firstFit with
+      | none => (st, ["DIVERGE drift range model refuses first fit"])
+      | some (rs', rr) =>
+        let out : Option (BitVec 32 × Nat) := match rr with | .reply ip o => some (ip, o) | _ => none
+        let chain := st.chain4.map (fun e => match e with | .lease _ => Sys.Elem4.lease out | e => e)
+        -- `range` ran iff its position is in the invocation log of the model's chain
+        let pos := (st.chain4.findIdx? (fun e => match e with | .lease _ => true | _ => false)).getD 0
+        let reached := match Sys.stub4 req with
+          | some r0 => ((runChain (chain.map Sys.handle4) req 0 (some r0)).2.any (fun p => p.1 == pos))
+          | none => false
+        let msgs := stepDg4 st chain bound oob res
+        ({ st with range := some (if reached then rs' else rs) },
+         msgs ++ (if reached then [match rr with | .reply _ _ => (if (lookupRec rs.recs req.chaddr).isSome then "br:sys.range-known" else "br:sys.range-new") | _ => "br:sys.range-exhausted"] else ["br:sys.range-not-reached"]))
+    | _, _ => (st, stepDg4 st st.chain4 bound oob res)
   | ["sdg6", bound, oob, src, _] => (st, stepDg6 st bound oob src res)
   | _ => (st, ["DIVERGE drift unparsed-op"])
 
